@@ -27,7 +27,7 @@ from pyanalyze.value import KnownValue
 
 from vf.common import get_checker
 from vf.engine import VERIF, Case, load_known
-from vf.g import G, excluded, fin, skip
+from vf.g import G, excluded, fin, skip, untraced
 
 ID = "C17"
 FUNCTIONS_ENCODED = [
@@ -35,6 +35,7 @@ FUNCTIONS_ENCODED = [
     "pyanalyze.format_strings.PercentFormatString.from_pattern / from_bytes_pattern / lint (replay of E2 witnesses)",
     "pyanalyze.format_strings.PercentFormatString.accept / accept_tuple_args_no_mvv / accept_mapping_args_no_mvv / get_serial_specifiers",
     "pyanalyze.format_strings.ConversionSpecifier.accept_no_mvv / StarConversionSpecifier.accept",
+    "pyanalyze.implementation._str_format_impl (H17d: positional / keyword argument lookup of str.format fields, against really formatting)",
     "pyanalyze.format_strings.parse_format_string / _parse_children / _parse_replacement_field (errors and, for a single field, index-vs-keyword decision)",
 ]
 BOUNDS = {
@@ -44,7 +45,7 @@ BOUNDS = {
 }
 OUTSIDE = [
     "templates containing a newline (Python's `$` also matches before a final newline; from_pattern patches that by hand)",
-    "implementation._str_format_impl's argument lookup by attribute/index path; the inferred result type (a constant)",
+    "attribute / index paths inside str.format fields beyond `{0.real}`; the inferred result type (a constant)",
     "the documented stricter lint rules: no specifiers at all, mixing mapping and positional specifiers",
 ]
 STUBS = ["coarse-hash stub for KnownValue (H17b)", "regular model of CPython's %-template parser (validated by E3 on all strings <= 5 over a 10-character alphabet)",
@@ -753,6 +754,68 @@ def h17_fmt(s: str) -> bool:
     return fin((len(errs) == 0) == model_format_ok(s))
 
 
+SF_FIELDS = {"auto": "{}", "i0": "{0}", "i1": "{1}", "ka": "{a}", "kb": "{b}", "esc": "{{}}", "conv": "{!r}", "spec": "{:>3}", "attr": "{0.real}"}
+
+
+def h17_sformat(nargs: int, ka: bool, kb: bool) -> bool:
+    """
+    post: _
+    """
+    # str.format call: template from a few field tokens, symbolic number of positional arguments and
+    # keyword presence; oracle = CPython itself (the template is really formatted in each path)
+    if excluded(nargs=nargs, ka=ka, kb=kb):
+        return skip()
+    from pyanalyze import implementation as _impl
+    from vf.common import StubVisitor, call_context
+
+    data = G.case
+    template = " ".join(SF_FIELDS[f] for f in data["fields"])
+    n = 0
+    for i in range(1, 4):
+        if nargs == i:
+            n = i
+    args = tuple(range(n))
+    kwargs = {}
+    if ka:
+        kwargs["a"] = 1
+    if kb:
+        kwargs["b"] = 2
+    vis = StubVisitor()
+    ctx = call_context({"self": KnownValue(template), "args": KnownValue(args), "kwargs": KnownValue(kwargs)}, vis)
+    ret = _impl._str_format_impl(ctx)
+    reported = len(vis.errors) > 0
+    try:
+        untraced(template.format, *args, **kwargs)  # CPython's own formatter, not CrossHair's model of it
+        raises = False
+    except (ValueError, IndexError, KeyError):
+        raises = True
+    # which arguments the template uses (for the documented stricter rule "argument not used")
+    used_pos = set()
+    auto = 0
+    used_kw = set()
+    for f in data["fields"]:
+        if f in ("auto", "conv", "spec"):
+            used_pos.add(auto)
+            auto += 1
+        elif f in ("i0", "attr"):
+            used_pos.add(0)
+        elif f == "i1":
+            used_pos.add(1)
+        elif f == "ka":
+            used_kw.add("a")
+        elif f == "kb":
+            used_kw.add("b")
+    unused = any(i not in used_pos for i in range(n)) or any(k not in used_kw for k in kwargs)
+    feat_mixed_numbering = any(f in ("auto", "conv", "spec") for f in data["fields"]) and any(f in ("i0", "i1", "attr") for f in data["fields"])
+    if excluded(feat_mixed_numbering=feat_mixed_numbering, raises=raises, reported=reported):
+        return skip()
+    if raises and not reported:
+        return fin(False)  # CPython raises, nothing reported
+    if reported and not raises and not unused:
+        return fin(False)  # reported although formatting succeeds and every argument is used
+    return fin(True)
+
+
 NAME_ALPHA = "01 +-_a"  # no "." / "[": attribute and index paths are outside this obligation (pyanalyze requires identifier attribute names, a stricter rule)
 
 
@@ -889,6 +952,13 @@ def cases(tier: str, seed: int) -> List[Case]:
                 for extra in (0, 1):
                     out.append(Case("h17_map", f"map:{conv_a}{conv_b}:{a_kind}:{extra}",
                                     {"convs": [conv_a, conv_b], "a_kind": a_kind, "extra": extra}, timeout=60))
+    toks = list(SF_FIELDS)
+    for nf in (1, 2) if quick else (1, 2, 3):
+        for fields in itertools.product(toks, repeat=nf):
+            idx += 1
+            if nf == 3 and (idx + seed) % 6 != 0:
+                continue
+            out.append(Case("h17_sformat", "sf:" + ",".join(fields), {"fields": list(fields)}, timeout=60, twin=True))
     for L in range(0, (2 if quick else 3) + 1):
         out.append(Case("h17_field", f"field:len{L}", {"len": L}, timeout=240 if quick else 1800, twin=L > 0))
     for L in range(0, (3 if quick else 4) + 1):
